@@ -171,6 +171,8 @@ pub enum Edge {
     /// iterator protocol (C14): kind, sub-range only for drain/splice, pattern, clone point
     IterProto { api: Api, kind: IterKind, pat: Pat, clone_at: u8 },
     Cap(Api, CapCall, u8),
+    /// the vector itself is dropped (with fault enumeration: an element destructor panics inside the vector's own Drop)
+    DropVec,
     /// the vector VALUE is moved to another address (inline storage moves with it), used there (`then`: follow-up op), moved back
     Relocate { slot: u8, then: u8 },
     /// one operation on a vector of `exec_huge::HUGE` (> 2^16) elements, from the empty state only
@@ -205,7 +207,7 @@ impl Edge {
             Edge::Push(..) => "push", Edge::Insert(..) => "insert", Edge::Pop(..) => "pop", Edge::Remove(..) => "remove",
             Edge::SwapRemove(..) => "swap_remove", Edge::Clear(..) => "clear", Edge::Get(..) => "get", Edge::IterAll(..) => "iter",
             Edge::Drain { .. } => "drain", Edge::Splice { .. } => "splice", Edge::DrainOverflow(..) => "drain-overflow",
-            Edge::SpliceOverflow(..) => "splice-overflow", Edge::IterProto { .. } => "iter-proto", Edge::History { .. } => "history", Edge::Three { .. } => "three-vectors", Edge::DrainAdapt { .. } => "drain-adaptor", Edge::SpliceAdapt { .. } => "splice-adaptor", Edge::IterAdapt { .. } => "iter-adaptor", Edge::Cap(..) => "capacity", Edge::Huge { .. } => "huge", Edge::Relocate { .. } => "relocate",
+            Edge::SpliceOverflow(..) => "splice-overflow", Edge::IterProto { .. } => "iter-proto", Edge::History { .. } => "history", Edge::Three { .. } => "three-vectors", Edge::DrainAdapt { .. } => "drain-adaptor", Edge::SpliceAdapt { .. } => "splice-adaptor", Edge::IterAdapt { .. } => "iter-adaptor", Edge::Cap(..) => "capacity", Edge::Huge { .. } => "huge", Edge::Relocate { .. } => "relocate", Edge::DropVec => "drop-vector",
             Edge::CloneVec { .. } => "clone", Edge::CloneEmpty { .. } => "clone_empty", Edge::CloneEmptyIn { .. } => "clone_empty_in", Edge::CloneFrom { .. } => "clone_from",
             Edge::ForgetHandle { .. } => "forget-handle", Edge::ForgetRange { .. } => "forget-range", Edge::ForgetRangeTyped { .. } => "forget-range-typed",
             Edge::WrongPush(..) => "wrong-push", Edge::WrongInsert(..) => "wrong-insert", Edge::WrongSpliceItem { .. } => "wrong-splice",
